@@ -133,7 +133,9 @@ def dist(t1, t2):
     t1, t2 = _process(t1, t2)
     if isinstance(t1, torch.Tensor) and isinstance(t2, torch.Tensor):
         return torch.dist(t1, t2)
-    return torch.sqrt(tn.dot(t1, t1) + tn.dot(t2, t2) - 2 * tn.dot(t1, t2).clamp(0))
+    return torch.sqrt(
+        (tn.dot(t1, t1) + tn.dot(t2, t2) - 2 * tn.dot(t1, t2)).clamp(0)
+    )
 
 
 def relative_error(gt, approx):
